@@ -1,5 +1,5 @@
 (* C17: algebra of orientations (signed permutations): composition, identity, sections, index maps; soundness of compute. *)
-From Coq Require Import List Arith Lia Bool ZArith.
+From Coq Require Import List Arith Lia Bool ZArith Permutation.
 From SplipyModel Require Import Model.Num Model.BasisDef Model.Tensor Model.Obj Model.Orient Proofs.EvalConsequences.
 Import ListNotations.
 
@@ -140,6 +140,79 @@ Proof.
   split; [exact H1|]. split; [exact H2|]. intros i Hi. rewrite forallb_forall in H3. apply H3. apply in_seq. lia.
 Qed.
 End Compute.
+
+(* completeness of the search: itertools.permutations x product([False, True]) enumerates every signed
+   permutation, so compute reports "no match" only if no signed permutation passes its test *)
+Section Complete.
+Context {F : Type} `{Num F}.
+
+Lemma perms_fuel_S f (l : list nat) : l <> [] ->
+  @perms_fuel (S f) l = flat_map (fun x => map (cons x) (@perms_fuel f (filter (fun y => negb (y =? x)) l))) l.
+Proof. destruct l; [congruence|reflexivity]. Qed.
+
+Lemma perms_complete fuel : forall (l p : list nat), NoDup l -> NoDup p -> (forall x, In x p <-> In x l) -> length l <= fuel ->
+  In p (@perms_fuel fuel l).
+Proof.
+  induction fuel as [|f IH]; intros l p Hl Hp Hin Hlen.
+  - destruct l; [|cbn in Hlen; lia]. destruct p as [|x p]; [left; reflexivity|]. exfalso. apply (Hin x). left. reflexivity.
+  - destruct p as [|x p].
+    + destruct l as [|y l]; [left; reflexivity|]. exfalso. apply (Hin y). left. reflexivity.
+    + assert (Hx : In x l) by (apply Hin; left; reflexivity).
+      rewrite perms_fuel_S by (intros E; rewrite E in Hx; destruct Hx).
+      apply in_flat_map. exists x. split; [exact Hx|]. apply in_map.
+      set (l' := filter (fun y0 => negb (y0 =? x)) l).
+      inversion Hp as [|? ? Hnx Hp']; subst.
+      assert (Hin' : forall z, In z p <-> In z l').
+      { intros z. unfold l'. rewrite filter_In. split.
+        - intros Hz. split; [apply Hin; right; exact Hz|]. destruct (Nat.eqb_spec z x) as [->|]; [contradiction|reflexivity].
+        - intros [Hz Hne]. destruct (Nat.eqb_spec z x); [discriminate|]. destruct (proj2 (Hin z) Hz) as [E|E]; [congruence|exact E]. }
+      apply IH; [apply NoDup_filter; exact Hl|exact Hp'|exact Hin'|].
+      assert (E1 : length p = length l').
+      { apply Permutation.Permutation_length. apply Permutation.NoDup_Permutation; [exact Hp'|apply NoDup_filter; exact Hl|exact Hin']. }
+      assert (E2 : length (x :: p) = length l).
+      { apply Permutation.Permutation_length. apply Permutation.NoDup_Permutation; [exact Hp|exact Hl|exact Hin]. }
+      cbn [length] in E2. lia.
+Qed.
+
+Lemma flips_complete n : forall f : list bool, length f = n -> In f (@flips n).
+Proof.
+  induction n as [|n IH]; intros f Hf.
+  - destruct f; [left; reflexivity|discriminate].
+  - destruct f as [|b f]; [discriminate|]. cbn [flips]. apply in_flat_map. exists b. split; [destruct b; cbn; auto|].
+    apply in_map. apply IH. cbn in Hf. lia.
+Qed.
+
+(* a genuine signed permutation of n directions *)
+Definition signed_perm (n : nat) (o : orient) : Prop :=
+  NoDup (o_perm o) /\ (forall x, In x (o_perm o) <-> x < n) /\ length (o_flip o) = n.
+
+Lemma all_candidates n o : signed_perm n o ->
+  In o (flat_map (fun p => map (fun f => mkOrient p f) (@flips n)) (@perms_fuel n (seq 0 n))).
+Proof.
+  intros (Hnd & Hin & Hfl). destruct o as [p f]. cbn [o_perm o_flip] in *.
+  apply in_flat_map. exists p. split.
+  - apply perms_complete; [apply seq_NoDup|exact Hnd| |rewrite seq_length; lia].
+    intros x. rewrite in_seq. rewrite Hin. lia.
+  - apply in_map. apply flips_complete. exact Hfl.
+Qed.
+
+Theorem orient_compute_complete (atol rtol ktol : F) (a b : obj F) :
+  orient_compute atol rtol ktol a b = None ->
+  length (o_bases a) = length (o_bases b) -> o_dim a = o_dim b ->
+  forall o, signed_perm (length (o_bases a)) o ->
+    (let rat := o_rat a || o_rat b in
+     let ca := norm_weights rat (if o_rat a then o_cps a else if rat then map (fun v => v ++ [n1]) (o_cps a) else o_cps a) in
+     let cb := norm_weights rat (if o_rat b then o_cps b else if rat then map (fun v => v ++ [n1]) (o_cps b) else o_cps b) in
+     list_eq_dec_b (oshape o (o_shape b)) (o_shape a) &&
+     nets_close atol rtol ca (omap_net o (o_shape b) cb) &&
+     forallb (fun i => basis_matches ktol (nth i (o_bases a) (mkBasis 0 [] 0)) (nth (nth i (o_perm o) 0) (o_bases b) (mkBasis 0 [] 0)) (nth i (o_flip o) false))
+             (seq 0 (length (o_bases a)))) = false.
+Proof.
+  unfold orient_compute. cbv zeta. intros Hnone Hn Hd o Ho.
+  rewrite <- Hn, Hd, !Nat.eqb_refl in Hnone. cbn [andb negb] in Hnone.
+  apply (find_none _ _ Hnone o). apply all_candidates. exact Ho.
+Qed.
+End Complete.
 
 (* the 2 / 8 / 48 orientations of curves, surfaces, volumes: closed under composition, every one has an inverse *)
 Definition all_orients (n : nat) : list orient :=
